@@ -307,6 +307,27 @@ CLAIMS = {
              'representative.',
         note='Trusted: ' + TB + '. Non-smooth points and functionals whose '
              'values are not interpretable on the line are not decided.'),
+    'C16': dict(
+        cat='proof', ref='DESIGN.md section 2, C16',
+        tech='symbolic interpretation of resize_array and its padding '
+             'helpers on 1-d arrays with symbolic entries to exact matrices;'
+             ' comparison with an oracle derived from the named boundary '
+             'rule and with the transpose; rational identities for '
+             '_resize_discr; constructor-argument and signature rules',
+        text='For every pad mode, every pair of sizes up to the bound and '
+             'every admissible offset the exact matrix of resize_array is '
+             'extracted from the source: the forward matrix equals the '
+             'boundary-rule oracle (overlapping block copied unchanged), the'
+             ' adjoint-direction matrix is its transpose, cropping after '
+             'extension is the identity -- for all array contents.  '
+             '_resize_discr keeps the cell size and places the new domain '
+             'by whole cells for all four boundary-node cases; '
+             'ResizingOperator wiring and constructor signatures conform.',
+        note='Trusted: ' + TB + '. One axis at a time (the per-axis loop is '
+             'exercised for a single axis); several hundred (size, offset) '
+             'configurations per mode; dtype casting and the weighted '
+             'adjoint identity on non-uniformly weighted spaces are not '
+             'decided.'),
 }
 
 NOT_YET = 'check not implemented yet in this commit (DESIGN.md section 6 build order)'
